@@ -388,6 +388,8 @@ union Union<First, Rest...> {
     if (target_index == index(TypeTag<First>{})) {
       Construct(TypeTag<First>{}, std::forward<Args>(args)...);
       return true;
+    } else if (target_index < 0) {
+      return false;
     } else {
       return rest_.Become(target_index - 1, std::forward<Args>(args)...);
     }
